@@ -102,7 +102,14 @@ pub fn level_after(tc: &TreeCtx, level: &[usize], first: bool, colon: bool, path
 pub fn gen_datum(rng: &mut Rng, uniq: &mut u32) -> Datum {
     *uniq += 1;
     let u = *uniq;
-    match rng.below(14) {
+    match rng.below(17) {
+        14 => Datum::Err(ErrSpec {
+            code: *rng.pick(&[-100i16, -222, -300, -350, 0, 7, -800, -113]),
+            ext: if rng.chance(1, 2) { Some(rng.below(16) as u8) } else { None },
+            msg: rng.below(8) as u8,
+        }),
+        15 => Datum::ArrList((0..rng.urange(1, 5)).map(|k| (u as i32) * 10 + k as i32 - 3).collect()),
+        16 => Datum::VecList((0..rng.urange(1, 5)).map(|k| (u as u16).wrapping_mul(7).wrapping_add(k as u16)).collect()),
         0 => Datum::I64(-(u as i64) * 3),
         1 => Datum::U64(u as u64 * 1000 + rng.below(1000)),
         2 => Datum::I16((u % 30000) as i16),
@@ -120,7 +127,10 @@ pub fn gen_datum(rng: &mut Rng, uniq: &mut u32) -> Datum {
         8 => {
             let mut s: Vec<u8> = format!("a{}", u).into_bytes();
             for _ in 0..rng.usize_below(8) {
-                s.push(*rng.pick(&[b';', b',', b'\n', 0xff, 0x00, b'#', b'x']));
+                s.push(*rng.pick(&[b';', b',', b'\n', 0xff, 0x00, b'#', b'x', b'\r']));
+            }
+            if rng.chance(1, 4) {
+                s.push(*rng.pick(&[b'\n', b';', b',', b'\r']));
             }
             Datum::Arb(B(s))
         }
@@ -137,7 +147,12 @@ pub fn gen_response_plan(rng: &mut Rng, uniq: &mut u32, max_data: usize) -> (Vec
     let mut hdr = Vec::new();
     for k in 0..nh {
         *uniq += 1;
-        hdr.push(format!("{}{}", if k == 0 { "RESP" } else { "SUB" }, *uniq % 1000));
+        let stem = if k == 0 {
+            *rng.pick(&["RESP", "R", "FREQUENCY", "MEASUREMENT"])
+        } else {
+            *rng.pick(&["SUB", "S", "CW", "X"])
+        };
+        hdr.push(format!("{}{}", stem, *uniq % 1000));
     }
     let nd = rng.urange(1, max_data.max(1));
     let data = (0..nd).map(|_| gen_datum(rng, uniq)).collect();
@@ -276,9 +291,45 @@ pub fn gen_undefined_header(rng: &mut Rng, tc: &TreeCtx, level: &[usize], first:
         };
         let (colon, mut path) = spell_header(rng, tc, &leaf, level, first, 30);
         let kind: &'static str;
-        let k = rng.below(7);
+        let k = rng.below(9);
         let idx = rng.usize_below(path.len());
         match k {
+            7 | 8 => {
+                // relative header that designates a node from some OTHER level (an ancestor of
+                // the current level, or the root) but nothing from the current one
+                if first || level.is_empty() {
+                    continue;
+                }
+                let other_len = rng.usize_below(level.len());
+                let other: Vec<usize> = level[..other_len].to_vec();
+                if leaf.path.len() <= other.len() || leaf.path[..other.len()] != other[..] {
+                    continue;
+                }
+                // spell the part of the chain below `other`
+                let mut n = &tc.root;
+                let mut chain: Vec<&MNode> = Vec::new();
+                for i in &leaf.path {
+                    n = &n.children()[*i];
+                    chain.push(n);
+                }
+                let mut rel: Vec<String> = Vec::new();
+                for n in chain[other.len()..].iter() {
+                    if n.name.is_empty() || (n.default && rng.chance(1, 2)) {
+                        continue;
+                    }
+                    rel.push(spell(rng, &n.name));
+                }
+                if rel.is_empty() || rel[0].starts_with('*') {
+                    continue;
+                }
+                if !matches!(resolve(&tc.root, &other, false, false, &rel), Resolved::Leaf { .. }) {
+                    continue;
+                }
+                if resolve(&tc.root, level, false, false, &rel) == Resolved::Undefined {
+                    return Some((false, rel, "valid_only_from_another_level"));
+                }
+                continue;
+            }
             0 => {
                 // unknown mnemonic
                 path[idx] = format!("QQ{}", (b'A' + rng.below(26) as u8) as char);
@@ -387,6 +438,7 @@ pub const HEADER_FAULTS: &[&str] = &[
     "illegal_char_in_header",
     "colon_before_common",
     "trailing_colon",
+    "mnemonic_too_long",
 ];
 
 /// Turn the (well-formed) header of `u` into a catalogued ill-formed one.
@@ -422,6 +474,32 @@ pub fn apply_header_fault(rng: &mut Rng, u: &mut Unit, kind: &str) -> bool {
                 v.extend_from_slice(q.as_bytes());
                 v
             }
+        }
+        "mnemonic_too_long" => {
+            let n = *rng.pick(LONG_LENGTHS);
+            let long: Vec<u8> = (0..n).map(|k| b"MNEMONICXY"[k % 10]).collect();
+            let mut v = Vec::new();
+            if common {
+                v.push(b'*');
+                v.extend_from_slice(&long);
+            } else {
+                if u.colon {
+                    v.push(b':');
+                }
+                let at = rng.usize_below(u.path.len());
+                for (k, m) in u.path.iter().enumerate() {
+                    if k > 0 {
+                        v.push(b':');
+                    }
+                    if k == at {
+                        v.extend_from_slice(&long);
+                    } else {
+                        v.extend_from_slice(m.as_bytes());
+                    }
+                }
+            }
+            v.extend_from_slice(q.as_bytes());
+            v
         }
         "double_colon" => {
             if common {
@@ -554,7 +632,13 @@ pub const PARAM_FAULTS: &[&str] = &[
     "illegal_char_as_data",
     "query_mark_in_params",
     "signed_block_length",
+    "char_too_long",
+    "suffix_too_long",
 ];
+
+/// lengths for over-long tokens: just over the limit, and around the wrap-around points of 8 bit
+/// length counters
+pub const LONG_LENGTHS: &[usize] = &[13, 14, 15, 100, 255, 256, 257, 260, 268, 269, 300, 511, 512, 520, 1000];
 
 /// Put a catalogued lexical fault into the parameter part of `u` (which must be well-formed).
 /// `last_in_msg`: the unit is the last one of the message and the message ends right after it
@@ -586,6 +670,18 @@ pub fn apply_param_fault(rng: &mut Rng, u: &mut Unit, kind: &str, last_in_msg: b
         }
         "suffix_13_chars" => {
             insert_raw(u, j, b"1.5 ABCDEFGHIJKLM".to_vec());
+            p = j;
+        }
+        "char_too_long" => {
+            let n = *rng.pick(LONG_LENGTHS);
+            insert_raw(u, j, (0..n).map(|k| b"ABCDEFGHIJ"[k % 10]).collect());
+            p = j;
+        }
+        "suffix_too_long" => {
+            let n = *rng.pick(LONG_LENGTHS);
+            let mut v = if rng.chance(1, 2) { b"1.5 ".to_vec() } else { b"2".to_vec() };
+            v.extend((0..n).map(|k| b"VOLTSAMPHZ"[k % 10]));
+            insert_raw(u, j, v);
             p = j;
         }
         "unterminated_string" => {
@@ -827,7 +923,7 @@ pub fn gen_garbage(rng: &mut Rng, max_len: usize) -> Vec<u8> {
 
 pub const CLASS_REPRESENTATIVES: &[i16] = &[
     -100, -101, -102, -104, -108, -109, -113, -120, -150, -199, -200, -221, -222, -224, -225, -240, -299, -300, -310, -350, -363, -399, -400,
-    -410, -440, -499, -500, -600, -700, -800, 1, 2, 100, 32767, -900, -1000, i16::MIN, -99, -1,
+    -410, -440, -499, -500, -600, -700, -800, 1, 2, 100, 32767, -900, -1000, i16::MIN, -99, -1, 0, 0,
 ];
 
 pub fn gen_err_spec(rng: &mut Rng) -> ErrSpec {
